@@ -53,11 +53,51 @@ def _run_impl(case: dict) -> dict:
         s.searches.wishlist = [WishlistSettingEntry(query=f'w{i}', enabled=bool(e)) for i, e in enumerate(cfg['items'])]
         bus = EventBus()
         net = Mock()
-        net.send_server_messages = AsyncMock()
         net.send_peer_messages = AsyncMock()
+
+        # send_server_messages: returns at once (as the AsyncMock did) unless the schedule has closed the gate
+        # (`gate 1`); then every send suspends until `sendok <ticket>` / `sendfail <ticket>`, or until its owner (the
+        # caller of search*, the wishlist task) is cancelled.  sends: ticket -> the suspended send
+        gate_on = [False]
+        sends: dict = {}
+        injected: list = []       # exception objects injected by `sendfail` (their propagation is not an error)
+        call_tasks: list = []     # search* calls that run as tasks of the application (gated)
+        call_of: dict = {}        # ticket -> the application task whose search* call drew it (while gated)
+
+        def _is_wl(task):
+            co = task.get_coro() if task is not None else None
+            return getattr(getattr(co, 'cr_code', None), 'co_qualname', '') == 'BackgroundTask.runner'
+
+        async def send_server_messages(*msgs, **kw):
+            if not gate_on[0]:
+                return None
+            tk = getattr(msgs[0], 'ticket', None) if msgs else None
+            ent = {'fut': loop.create_future(), 'task': asyncio.current_task()}
+            ent['wl'] = _is_wl(ent['task'])
+            sends[tk] = ent
+            if not ent['wl']:
+                call_of[tk] = ent['task']
+            try:
+                await ent['fut']
+            finally:
+                if sends.get(tk) is ent:
+                    del sends[tk]
+        net.send_server_messages = send_server_messages
         m = SearchManager(s, bus, Mock(), Mock(), net)
         if cfg['initial'] != 1:
             m._ticket_generator = ticket_generator(initial=cfg['initial'])
+        # the draws are counted where they happen (announcements may come in another order than the draws once a set-up
+        # can be suspended): open_draws[ticket] = numbers of the draws of that ticket not yet matched to an announcement
+        draw_count = [0]
+        open_draws: dict = {}
+        drawno: dict = {}         # harness request id -> draw number of its ticket
+
+        def counting(gen):
+            for tk_ in gen:
+                draw_count[0] += 1
+                open_draws.setdefault(tk_, []).append(draw_count[0])
+                yield tk_
+        m._ticket_generator = counting(m._ticket_generator)
         server_conn = Mock(spec=ServerConnection)
         peer_conn = Mock(spec=PeerConnection)
         peer_conn.disconnect = AsyncMock()
@@ -99,6 +139,9 @@ def _run_impl(case: dict) -> dict:
 
         def on_sent(e):
             r = rid_of(e.query)
+            if r not in drawno:
+                q_ = open_draws.get(e.query.ticket)
+                drawno[r] = q_.pop(0) if q_ else 0
             if e.query.ticket in tracker:
                 flags['clobber'] = True
             tracker[e.query.ticket] = r
@@ -248,6 +291,8 @@ def _run_impl(case: dict) -> dict:
             if t.cancelled():
                 return
             exc = t.exception()
+            if exc is not None and any(exc is x for x in injected):
+                return            # the injected send failure ends the wishlist task (BackgroundTask.runner does not catch)
             if exc is not None:
                 arg = exc.args[0] if isinstance(exc, KeyError) and exc.args and isinstance(exc.args[0], int) else None
                 errors.append([now(), type(exc).__name__, arg])
@@ -288,16 +333,52 @@ def _run_impl(case: dict) -> dict:
             del events[:]
             del errors[:]
             flags['clobber'] = False
-            st: dict = {'t0': now(), 'before': sorted(m.requests.keys()), 'ret': None}
+            it0 = loop.iterations
+            st: dict = {'t0': now(), 'before': sorted(m.requests.keys()), 'ret': None,
+                        'insetup_before': sorted(k_ for k_ in sends if k_ is not None)}
             try:
                 k = op[0]
-                if k == 'search':
+                if k == 'search' and gate_on[0]:
+                    # the application calls search*(): the call runs (as `await m.search(..)` inside an application
+                    # coroutine would) up to its first suspension — the gated send — and stays there
+                    co = {'net': lambda: m.search('q'), 'room': lambda: m.search_room('room', 'q'),
+                          'user': lambda: m.search_user('user', 'q')}[op[1]]()
+                    ct = asyncio.Task(co, loop=loop, eager_start=True)
+                    ct.add_done_callback(lambda t: t.cancelled() or t.exception())     # (outcome retrieved; not judged)
+                    call_tasks.append(ct)
+                elif k == 'search':
                     if op[1] == 'net':
                         await m.search('q')
                     elif op[1] == 'room':
                         await m.search_room('room', 'q')
                     else:
                         await m.search_user('user', 'q')
+                elif k == 'gate':
+                    gate_on[0] = bool(op[1])
+                elif k in ('sendok', 'sendfail'):
+                    ent = sends.get(op[1])
+                    if ent is None or ent['fut'].done():
+                        st['ret'] = 'nosetup'
+                    elif k == 'sendok':
+                        ent['fut'].set_result(None)
+                    else:
+                        from aioslsk.exceptions import ConnectionWriteError
+                        exc = ConnectionWriteError('injected: the server connection broke during the send')
+                        injected.append(exc)
+                        ent['fut'].set_exception(exc)
+                elif k == 'ccancel':
+                    # the application cancels its task that is inside search*() for that ticket — wherever the call is
+                    # suspended (in the code as it is: only in the send)
+                    ct = call_of.get(op[1])
+                    if ct is None or ct.done():
+                        st['ret'] = 'nosetup'
+                    else:
+                        ct.cancel()
+                elif k == 'tick':
+                    # exactly ONE iteration of the loop at the present instant
+                    if len(op) > 1:
+                        raise _UnknownOp(f'unknown op {op}')
+                    await asyncio.sleep(0)
                 elif k == 'wlmsg':
                     await bus.emit(MessageReceivedEvent(message=WishlistInterval.Response(op[1]), connection=server_conn))
                 elif k == 'wlclose':
@@ -367,7 +448,18 @@ def _run_impl(case: dict) -> dict:
                         st['ret'] = 'armed' if r.timer._task is not None else 'idle'
                         r.timer.reschedule(op[2])
                 elif k == 'jump':
+                    # the clock advances while nothing runs; the wake-ups that are due now are queued (what the loop does
+                    # at the start of its next iteration) — so whatever the schedule does next is queued BEHIND them: a
+                    # `tick` then is one phase of every timer (due -> woken -> callback), see Search.wakeTask
                     loop._vt += op[1]
+                    import heapq
+                    while loop._scheduled and loop._scheduled[0]._when <= loop._vt:
+                        h = heapq.heappop(loop._scheduled)
+                        h._scheduled = False
+                        if not h._cancelled:
+                            loop._ready.append(h)
+                        else:
+                            loop._timer_cancelled_count = max(0, loop._timer_cancelled_count - 1)
                 elif k == 'sleep':
                     await simloop.advance(op[1])
                 else:
@@ -379,6 +471,7 @@ def _run_impl(case: dict) -> dict:
             except BaseException as e:  # noqa — the real code raised into its caller: an observation
                 st['raised'] = type(e).__name__
             st['t1'] = now()
+            st['iters'] = loop.iterations - it0      # > 0: the op let the loop run (a call that suspended)
             st['events'] = [list(x) for x in events]
             st['errors'] = [list(x) for x in errors]
             st['clobber'] = flags['clobber']
@@ -390,6 +483,9 @@ def _run_impl(case: dict) -> dict:
             st['susp'] = sum(1 for g in gates if g[1] and not g[0].done())
             st['susp_sent'] = sum(1 for g in sgates if not g.done())
             st['stored'] = [[i, len(o.results)] for i, o in enumerate(objs)]
+            st['blocked'] = sorted(k_ for k_, e_ in sends.items() if k_ is not None and not e_['fut'].done())
+            st['insetup'] = sorted(k_ for k_ in sends if k_ is not None)
+            st['timerless'] = sorted(tk for tk, r in m.requests.items() if r.timer is None)
             if lis:
                 # removal reports still running: [ticket, listeners entered so far]
                 st['rep'] = sorted([tk, sum(1 for x in lrec['enter'] if x[0] == 'X' and x[3] == r)]
@@ -409,18 +505,37 @@ def _run_impl(case: dict) -> dict:
             await simloop.settle()
             if all(g.done() for g in sgates) and all(g[0].done() for g in lgates):
                 break
-        return {'late_errors': [list(x) for x in errors], 'late_events': [list(x) for x in events],
-                'handlers_pending': sum(1 for t in handler_tasks if not t.done()), 'keep': len(keep),
-                'lis': {k: [list(x) for x in v] for k, v in lrec.items()} if lis else None,
-                'listeners_busy': len(lrec['enter']) - len(lrec['exit']),
-                'tickets': {str(i): o.ticket for i, o in enumerate(objs)}}
+        result = {'late_errors': [list(x) for x in errors], 'late_events': [list(x) for x in events],
+                  'handlers_pending': sum(1 for t in handler_tasks if not t.done()), 'keep': len(keep),
+                  'lis': {k: [list(x) for x in v] for k, v in lrec.items()} if lis else None,
+                  'listeners_busy': len(lrec['enter']) - len(lrec['exit']),
+                  'tickets': {str(i): o.ticket for i, o in enumerate(objs)},
+                  'drawno': {str(k_): v_ for k_, v_ in drawno.items()}}
+        # not part of the case any more: whatever is still suspended in a gated send is cancelled HERE, while the
+        # harness still holds it (a suspended task that is only reachable from this frame would be collected when
+        # the frame goes — "Task was destroyed but it is pending" would then be reported at a random moment)
+        nexc = len(loop.exceptions)
+        gate_on[0] = False
+        for _ in range(4):
+            for ent in list(sends.values()):
+                if ent['task'] is not None and not ent['task'].done():
+                    ent['task'].cancel()
+            await m.stop()
+            for t in call_tasks:
+                if not t.done():
+                    t.cancel()
+            await simloop.settle()
+            if not sends and all(t.done() for t in call_tasks):
+                break
+        del loop.exceptions[nexc:]
+        return result
 
     try:
         from vlib import simloop as _sl
         res, loop = _sl.run(main, start=START, wall_timeout=30.0)
         tail = {'late_errors': res['late_errors'], 'loop_exceptions': loop.exceptions,
                 'late_events': res['late_events'], 'handlers_pending': res['handlers_pending'], 'lis': res['lis'],
-                'tickets': res['tickets'], 'listeners_busy': res['listeners_busy']}
+                'tickets': res['tickets'], 'listeners_busy': res['listeners_busy'], 'drawno': res['drawno']}
     except Exception as e:  # harness-level failure of this case (e.g. the loop does not quiesce)
         tail = {'late_errors': [], 'loop_exceptions': [], 'harness': f'{type(e).__name__}: {e}'}
     return {'steps': steps, 'tail': tail}
@@ -442,13 +557,14 @@ def _line(st: dict) -> str:
     toks = [x[3] for x in sorted(evs)]
     if st.get('raised'):
         toks.append('RAISED:' + st['raised'])
-    if st['ret'] in ('KeyError', 'noreq', 'notimer', 'noemit'):
+    if st['ret'] in ('KeyError', 'noreq', 'notimer', 'noemit', 'nosetup'):
         toks.append(st['ret'])
     if st['clobber']:
         toks.append('clobber')
     rep = f" rep={','.join(f'{a}:{b}' for a, b in st['rep'])}" if 'rep' in st else ''
     return (f"{' '.join(toks)} | live={','.join(map(str, st['after']))} armed={','.join(map(str, st['armed']))} "
-            f"res={','.join(f'{a}:{b}' for a, b in st['res'])} pend={st['pend']}{rep} now={st['t1']}")
+            f"res={','.join(f'{a}:{b}' for a, b in st['res'])} pend={st['pend']}{rep} "
+            f"setup={','.join(map(str, st.get('blocked', [])))} now={st['t1']}")
 
 
 def _impl_lines(tr: dict) -> list[str]:
@@ -486,7 +602,18 @@ def _monitor(case: dict, tr: dict) -> list[Violation]:
     live: dict[int, int] = {}       # ticket -> rid  (registered, as far as events and API calls say)
     wl_interval = None
     draws = 0
+    drawno = tr['tail'].get('drawno') or {}
+
+    def dn(rid, fallback):
+        # number of the draw that handed out the ticket of request `rid` (counted at the generator; the order of the
+        # announcements is only a fallback)
+        v = drawno.get(str(rid))
+        return v if v else fallback
     gated: list = []                # replies whose handler may be suspended in disconnect(): {tk, rid, ok}
+    setup_seen: set = set()         # tickets that were seen suspended in the send of their set-up
+    setup_removed: set = set()      # … and that remove_request() accepted while they were (the user removed them)
+    setup_touched: set = set()      # … whose Timer the user cancelled / re-armed through SearchManager.requests while they
+                                    # were (an implementation that registers early lets him): not judged any further
 
     def pick_reply(tk, rid):
         # the not yet answered reply (handler run as a task) that a result event answers: first one sent while this
@@ -494,13 +621,21 @@ def _monitor(case: dict, tr: dict) -> list[Violation]:
         c = [x for x in gated if x['tk'] == tk and not x['answered']]
         return next((x for x in c if x['rid'] == rid), c[0] if c else None)
     if tr['tail'].get('harness'):
-        bad('C18-harness', 'the case could not be run to the end: ' + tr['tail']['harness'])
+        bad('C18-impl-error', 'the case could not be run to the end: ' + tr['tail']['harness'])
         return vs
     for i, (op, st) in enumerate(zip(case['ops'], tr['steps'])):
         k = op[0]
         if k == 'removeobj':          # remove_request(<request object>): the same call, the same obligations
             k, op = 'remove', ['remove'] + op[1:]
-        ran = k in ('sleep', 'resume')    # ops in which the loop runs (`resume` = release one listener + settle)
+        # ops in which the loop runs (`resume` = release one listener + settle); any other op only if the call suspended
+        ran = k in ('sleep', 'resume', 'tick') or st.get('iters', 0) > 0
+        settled = k in ('sleep', 'resume')       # … until nothing is ready (`tick`: a given number of iterations)
+        setup_before = set(st.get('insetup_before', []))
+        setup_seen |= setup_before | set(st.get('insetup', []))
+        # … plus the tickets whose send is over but which have not been announced (yet): between the registration and the
+        # announcement a reply may find the request or not — judged when that has ended (registry check, when settled)
+        setup_before |= {x for x in setup_seen if x not in live and x not in setup_removed and
+                         not any(q['ticket'] == x for q in reqs.values())}
         where = f'op #{i} {case["ops"][i]}'
         if st.get('raised'):
             bad('C18-op-raised-' + st['raised'],
@@ -516,22 +651,30 @@ def _monitor(case: dict, tr: dict) -> list[Violation]:
             for t, kind, tk, rid, stype, rtk in st['events']:
                 if kind == 'S':
                     d += 1
-                    if tk in tmp and d - draw_of.get(tmp[tk], d) < period:
+                    dd = dn(rid, d)
+                    if tk in tmp and dd - draw_of.get(tmp[tk], dd) < period:
                         bad('C18-ticket-reused', f'{where}: ticket {tk} given to a new request while request '
-                            f'#{tmp[tk]} is still registered ({d - draw_of.get(tmp[tk], d)} draws apart)', observed=tk)
+                            f'#{tmp[tk]} is still registered ({dd - draw_of.get(tmp[tk], dd)} draws apart)', observed=tk)
                         break
                     tmp[tk] = rid
-                    draw_of[rid] = d
+                    draw_of[rid] = dd
                 elif kind == 'X' and tmp.get(tk) == rid:
                     del tmp[tk]
             return vs
         # errors inside library tasks (timer tasks / wishlist task): "no later error"
         for t, typ, arg in st['errors']:
+            if typ == 'KeyError' and arg in setup_touched:
+                continue
             r = next((q for q in reqs.values() if q['ticket'] == arg), None)
-            if typ == 'KeyError' and r is not None and r['by_user']:
+            if typ == 'KeyError' and ((r is not None and r['by_user']) or (r is None and arg in setup_removed)):
                 bad('C18-timer-error-after-remove',
                     f'{where}: KeyError({arg}) in the timer task of a request the user removed '
                     '(its Timer was left armed by remove_request, or was started after the removal)', observed=[t, typ, arg], required='no error after removal')
+            elif typ == 'KeyError' and r is not None and r['removed_events'] and not r['live']:
+                bad('C18-timer-fired-twice',
+                    f'{where}: KeyError({arg}) in a timer task: the callback ran for request {arg} although its removal had '
+                    'already been reported — by a timer that had been cancelled or re-armed (superseded), or the '
+                    'callback ran twice', observed=[t, typ, arg], required='one removal, no later error')
             else:
                 bad('C18-task-error', f'{where}: {typ}({arg}) inside a library task', observed=[t, typ, arg])
         if k == 'wlmsg':
@@ -540,30 +683,43 @@ def _monitor(case: dict, tr: dict) -> list[Violation]:
         if ran:
             for r in reqs.values():
                 if r['live'] and r.get('arm') is not None:
-                    r.update(deadline=st['t0'] + r['arm'], arm=None)
+                    r.update(deadline=st['t0'] + r['arm'], arm=None)      # ('earliest' keeps the time of the call + T)
         # ---- events
         n_results = 0
         for t, kind, tk, rid, stype, rtk in st['events']:
+            if tk in setup_touched and rid not in reqs:
+                draws += 1 if kind == 'S' else 0
+                continue
             if kind == 'S':
                 draws += 1
                 if not (1 <= tk <= MAXT):
                     bad('C18-ticket-range', f'{where}: ticket {tk} outside 1..2^32-1', observed=tk)
                 if tk in live:
                     old = reqs[live[tk]]
-                    if draws - old['draw'] < period:
+                    if dn(rid, draws) - old['draw'] < period:
                         bad('C18-ticket-reused', f'{where}: ticket {tk} given to a new request while request '
-                            f'#{live[tk]} is still registered ({draws - old["draw"]} draws apart)', observed=tk)
+                            f'#{live[tk]} is still registered ({dn(rid, draws) - old["draw"]} draws apart)', observed=tk)
                     return vs          # >= period draws apart: outside the property's quantifier
                 if stype == 'WISHLIST':
                     T = cfg['wt'] if cfg['wt'] >= 0 else (wl_interval if wl_interval is not None else None)
                     T = T if T else None
                 else:
                     T = cfg['rt'] if cfg['rt'] > 0 else None
-                reqs[rid] = {'ticket': tk, 'live': True, 'deadline': None, 'arm': T, 'draw': draws,
+                # `earliest`: T after the timer was armed; `deadline`: T after the loop first ran with the timer armed
+                # (a Timer whose countdown starts with the task's first step — as in the code — fires then; one that
+                # counts from the call itself fires at `earliest`; anything in between is "at the timeout" when the loop
+                # was busy in between)
+                reqs[rid] = {'ticket': tk, 'live': True, 'deadline': None, 'arm': T, 'draw': dn(rid, draws),
+                             'earliest': (t + T) if T is not None else None,
                              'by_user': False, 'removed_events': 0, 'created': t,
                              'why': f'created at t={t} with timeout {T}'}
-                if ran and T is not None:       # created by a wishlist round / a search task while the loop runs
-                    reqs[rid].update(deadline=t + T, arm=None)
+                if settled and T is not None:   # created by a wishlist round / a search task while the loop runs
+                    reqs[rid].update(deadline=t + T, arm=None)      # (`tick`: its timer starts in the next iteration)
+                if tk in setup_removed:
+                    # announced although remove_request() accepted its ticket while it was being set up: whatever
+                    # else happens for it is judged as for any request the user removed
+                    reqs[rid].update(live=False, by_user=True)
+                    continue
                 live[tk] = rid
             elif kind == 'U':
                 # remove_request called (successfully) by the sent-listener for the request it was told about
@@ -573,6 +729,8 @@ def _monitor(case: dict, tr: dict) -> list[Violation]:
                     reqs[rid].update(live=False, by_user=True)
             elif kind == 'X':
                 r = reqs.get(rid)
+                if r is None and tk in setup_touched:
+                    continue
                 if r is None:
                     bad('C18-removed-unknown', f'{where}: removal reported for a request never announced', observed=tk)
                     continue
@@ -591,10 +749,11 @@ def _monitor(case: dict, tr: dict) -> list[Violation]:
                 elif r['deadline'] is None:
                     bad('C18-cancelled-timer-fired', f'{where}: request {tk} removed by a timer although it has no '
                         f'armed timeout ({r["why"]})', observed=[t, tk])
-                elif t < r['deadline']:
+                elif t < min(r['deadline'], r.get('earliest') if r.get('earliest') is not None else r['deadline']):
                     bad('C18-removed-early', f'{where}: request {tk} removed at t={t}, before its timeout '
-                        f't={r["deadline"]} ({r["why"]})', observed=t, required=r['deadline'])
-                elif ran and t != max(r['deadline'], st['t0']):
+                        f't={min(r["deadline"], r.get("earliest") or r["deadline"])} ({r["why"]})', observed=t,
+                        required=r['deadline'])
+                elif ran and t > max(r['deadline'], st['t0']):
                     bad('C18-removed-late', f'{where}: request {tk} removed at t={t}, timeout was t={r["deadline"]}',
                         observed=t, required=max(r['deadline'], st['t0']))
                 if r['live']:
@@ -626,13 +785,15 @@ def _monitor(case: dict, tr: dict) -> list[Violation]:
             elif kind == 'R':
                 n_results += 1
                 r = reqs.get(rid)
+                if op[1] in setup_before and rtk == op[1] and tk == op[1] and r is None:
+                    continue      # a request in set-up (registered before announced, or not): judged when that ends
                 if rtk != op[1] or tk != op[1]:
                     bad('C18-result-wrong-ticket', f'{where}: result with ticket {rtk} reported for request {tk}',
                         observed=[tk, rtk], required=op[1])
                 elif r is None or not r['live'] or op[1] not in st['before']:
                     bad('C18-result-for-dead-request', f'{where}: result reported for ticket {tk} which is not '
                         'registered', observed=[t, tk])
-        if k == 'reply':
+        if k == 'reply' and op[1] not in setup_before:
             want = 1 if op[1] in st['before'] else 0
             if n_results != want and not any(v.signature.startswith('C18-result') for v in vs):
                 bad('C18-result-missing' if want else 'C18-result-for-dead-request',
@@ -645,28 +806,56 @@ def _monitor(case: dict, tr: dict) -> list[Violation]:
             rid = live.pop(op[1], None)
             if rid is not None:       # (accepting an unknown ticket silently is not against the property)
                 reqs[rid].update(live=False, by_user=True)
-        elif k == 'remove' and st['ret'] == 'KeyError' and op[1] in live:
+            elif op[1] in setup_before:
+                setup_removed.add(op[1])
+        elif k == 'remove' and st['ret'] == 'KeyError' and op[1] in live and not (
+                reqs[live[op[1]]]['deadline'] is not None and reqs[live[op[1]]]['deadline'] <= st['t1']):
             bad('C18-registry-mismatch', f'{where}: remove_request raised KeyError for a registered ticket')
         elif k == 'stop':
             # stop() cancels the wishlist task and the Timer of every registered request (they stay registered)
             for r in reqs.values():
-                if r['live']:
+                if r['live'] and r['ticket'] in st['before']:
                     r.update(deadline=None, arm=None, why='timer cancelled by stop()')
         elif k in ('tcancel', 'tresched') and st['ret'] in ('armed', 'idle'):
+            if op[1] not in live and op[1] in setup_before:
+                setup_touched.add(op[1])
             rid = live.get(op[1])
             if rid is not None:
                 if k == 'tcancel':
                     reqs[rid].update(deadline=None, arm=None, why='timer cancelled by the user')
                 else:
-                    reqs[rid].update(deadline=None, arm=op[2], why=f're-armed at t={st["t1"]} for {op[2]} s')
-        # ---- registry = what events and calls say
-        if sorted(live.keys()) != st['after']:
+                    reqs[rid].update(deadline=None, arm=op[2], earliest=st['t1'] + op[2],
+                                     why=f're-armed at t={st["t1"]} for {op[2]} s')
+        # ---- registry = what events and calls say. A request whose set-up is suspended in the send (not announced
+        # yet) may or may not be registered already; once its set-up is over it is announced, or it is not there.
+        may = (set(st.get('insetup', [])) - setup_removed - set(live.keys())) | setup_touched
+        if not settled:
+            # between single iterations the owner of a set-up whose send has returned may be anywhere between the
+            # registration and the announcement; judged when the loop has run until nothing was ready
+            may |= {x for x in setup_seen if x not in live and x not in setup_removed and
+                    not any(q['ticket'] == x for q in reqs.values())}
+        after = [x for x in st['after'] if x not in may]
+        # between two single iterations a request whose timeout has come may already be out of the registry while its
+        # report is still on its way (same instant, a later iteration); when the loop has run on, the report is there
+        expiring = set() if settled else {x for x, rid_ in live.items() if x not in st['after'] and
+                                          reqs[rid_]['deadline'] is not None and reqs[rid_]['deadline'] <= st['t1']}
+        if sorted(x for x in live if x not in may and x not in expiring) != after:
+            orphans = [x for x in after if x not in live and x in setup_seen]
+            if orphans and all(x in live or x in orphans for x in after) and all(x in after for x in live):
+                tk = orphans[0]
+                bad('C18-setup-left-registered', f'{where}: ticket {tk} is in SearchManager.requests although its '
+                    'set-up is over (the send failed, its owner was cancelled, or the user removed it meanwhile) and no '
+                    'SearchRequestSentEvent announced it' +
+                    (' — it has no Timer: it is never removed, never reported, and replies with its ticket are '
+                     'reported for a request nobody was told about' if tk in st.get('timerless', []) else ''),
+                    observed=st['after'], required=sorted(live.keys()))
+                return vs
             bad('C18-registry-mismatch', f'{where}: SearchManager.requests = {st["after"]} but events/calls imply '
                 f'{sorted(live.keys())} (a request vanished or stayed without report)', observed=st['after'],
                 required=sorted(live.keys()))
             return vs
-        # ---- after the loop has run, nothing that is due is still registered
-        if ran:
+        # ---- after the loop has run until nothing was ready, nothing that is due is still registered
+        if settled:
             for rid, r in reqs.items():
                 if r['live'] and r['deadline'] is not None and r['deadline'] <= st['t1']:
                     bad('C18-timeout-missed', f'{where}: request {r["ticket"]} still registered at t={st["t1"]}, its '
@@ -1239,6 +1428,189 @@ def _fixed_notify() -> list[dict]:
     return out
 
 
+def _timed_request(rng: random.Random, cfg: dict, ops: list, draws: int, src: str) -> tuple[int, int, int]:
+    """appends the ops that create ONE request with a timeout from source `src` ('net' / 'room' / 'user': the
+    request_timeout; 'wl-server': the server's wishlist interval; 'wl-own': wishlist_request_timeout) and lets its
+    timer start; returns (ticket, timeout, draws)"""
+    if src in ('net', 'room', 'user'):
+        cfg['rt'] = rng.choice([1, 2, 3, 5])
+        ops += [['search', src], ['tick']]
+        return _tickets(1, draws + 1)[-1], cfg['rt'], draws + 1
+    iv = rng.choice([2, 3, 4])
+    cfg['items'] = [1] + cfg['items'][:1]
+    cfg['wt'] = -1 if src == 'wl-server' else rng.choice([2, 3])
+    ops += [['wlmsg', iv], ['tick'], ['tick']]   # the round runs in the first iteration, its timers start in the second
+    return _tickets(1, draws + 1)[-1], (iv if cfg['wt'] < 0 else cfg['wt']), draws + sum(cfg['items'])
+
+
+def _iter_action(rng: random.Random, tk: int, others: list) -> list:
+    t = tk if rng.random() < 0.8 or not others else rng.choice(others)
+    return rng.choice([['tcancel', t], ['tresched', t, rng.choice([0, 1, 2, 5])], ['tresched', t, rng.choice([1, 2, 5])],
+                       ['remove', t], ['removeobj', t], ['reply', t], ['reply', t], ['wlmsg', rng.choice([2, 3, 4])],
+                       ['wlclose'], ['stop'], ['search', rng.choice(['net', 'room', 'user'])]])
+
+
+def _gen_iter(rng: random.Random) -> dict:
+    """MODELLED (Search.step, op `tick`): an event lands in a chosen LOOP ITERATION around the expiry of a timer. The
+    clock is put on (or next to) the deadline, the loop runs j = 0..5 single iterations, then Timer.cancel /
+    reschedule / remove_request (by ticket, by object) / a reply / a WishlistInterval message / server closing /
+    stop() / another search happens, then more single iterations, a second event, and finally the loop runs on."""
+    cfg = _gen_cfg(rng)
+    cfg['initial'] = 1
+    ops: list = []
+    draws = 0
+    others = []
+    for _ in range(rng.randint(0, 2)):
+        ops.append(['search', rng.choice(['net', 'room', 'user'])])
+        draws += 1
+        others.append(_tickets(1, draws)[-1])
+    tk, T, draws = _timed_request(rng, cfg, ops, draws, rng.choice(['net', 'room', 'user', 'wl-server', 'wl-server', 'wl-own']))
+    if rng.random() < 0.25:                       # the timer was re-armed before
+        pre = rng.choice([0, 1, max(T - 1, 0)])
+        n = rng.choice([0, 1, 2, T])
+        ops += [['jump', pre]] + [['tick']] * rng.choice([0, 1, 2]) + [['tresched', tk, n]] + [['tick']] * rng.choice([0, 1, 2])
+        T = n
+    ops.append(['jump', rng.choice([T, T, T, T, max(T - 1, 0), T + 1])])
+    for _ in range(rng.randint(1, 3)):
+        ops += [['tick']] * rng.randint(0, 5)
+        ops.append(_iter_action(rng, tk, others))
+    ops += [['tick']] * rng.randint(0, 4)
+    if rng.random() < 0.3:
+        ops += [['jump', 1]] + [['tick']] * rng.randint(1, 3) + [_iter_action(rng, tk, others)]
+    ops += [['sleep', 0], ['wlclose'], ['sleep', rng.choice([1, 6, 12])]]
+    return {'cfg': cfg, 'ops': ops, 'kind': 'iter'}
+
+
+def _fixed_iter() -> list[dict]:
+    """every action in every one of the iterations −1 … +4 around the iteration in which the sleep of the timer is over,
+    for the three sources of a timeout"""
+    out = []
+    b = {'store': 1, 'initial': 1}
+    srcs = [(dict(b, rt=3, wt=-1, items=[]), [['search', 'net'], ['tick']], 3, []),
+            (dict(b, rt=0, wt=-1, items=[1]), [['wlmsg', 4], ['tick'], ['tick']], 4, [['wlclose']]),
+            (dict(b, rt=5, wt=2, items=[1]), [['wlmsg', 7], ['tick'], ['tick']], 2, [['wlclose']])]
+    for cfg, pre, T, wl in srcs:
+        for act in (['tcancel', 2], ['tresched', 2, 2], ['tresched', 2, 0], ['remove', 2], ['removeobj', 2], ['reply', 2],
+                    ['wlmsg', 3], ['wlclose'], ['stop'], ['search', 'user']):
+            for j in range(6):
+                out.append({'cfg': dict(cfg), 'kind': 'iter',
+                            'ops': pre + [['jump', T]] + [['tick']] * j + [act] + [['tick']] * 3 +
+                            [['reply', 2], ['sleep', 0]] + wl + [['sleep', 6]]})
+    # two requests that expire in the same iteration; an event between two iterations hits one of them
+    for act in (['tresched', 3, 1], ['remove', 3], ['tcancel', 3]):
+        for j in range(5):
+            out.append({'cfg': dict(b, rt=2, wt=-1, items=[]), 'kind': 'iter',
+                        'ops': [['search', 'net'], ['search', 'room'], ['tick'], ['jump', 2]] + [['tick']] * j + [act] +
+                        [['tick']] * 3 + [['sleep', 4]]})
+    return out
+
+
+def _gen_setup(rng: random.Random) -> dict:
+    """MODELLED (Search.step, ops `gate`, `sendDone`, `cancelCall`): `send_server_messages` suspends. Requests of every
+    kind are caught in the middle of their set-up (ticket drawn, send not finished); meanwhile the send is released,
+    fails, the owner is cancelled (the caller's task; the wishlist task through a WishlistInterval message, the server
+    connection closing, stop()), the user removes the ticket, a reply with it arrives, time passes, timers expire."""
+    cfg = _gen_cfg(rng)
+    cfg['initial'] = 1
+    if rng.random() < 0.6:
+        cfg['items'] = rng.choice([[1], [1, 1], [1, 0, 1], [1, 1, 1]])
+        cfg['wt'] = rng.choice([-1, -1, -1, 2, 3, 0])
+    cfg['rt'] = rng.choice([0, 1, 2, 3, 3, 5])
+    guess = _tickets(1, 9)
+    ops: list = []
+    drawn = 0
+    for _ in range(rng.randint(0, 2)):
+        ops.append(['search', rng.choice(['net', 'room', 'user'])])
+        drawn += 1
+    if rng.random() < 0.3:
+        ops += [['wlmsg', rng.choice([2, 3, 4])], ['sleep', rng.choice([0, 1])]]
+        drawn += sum(cfg['items'])
+    ops.append(['gate', 1])
+    for _ in range(rng.randint(4, 12)):
+        r = rng.random()
+        d = min(drawn, len(guess) - 1)
+        tk = rng.choice(guess[max(0, d - 2):d + 2]) if rng.random() < 0.85 else rng.choice(guess)
+        if r < 0.14:
+            ops.append(['search', rng.choice(['net', 'room', 'user'])])
+            drawn += 1
+        elif r < 0.22:
+            ops.append(['wlmsg', rng.choice([2, 3, 4])])
+            if rng.random() < 0.7:
+                ops.append(['tick'])
+                drawn += 1 if any(cfg['items']) else 0
+        elif r < 0.36:
+            ops.append(['sendok', tk])
+            if rng.random() < 0.6:
+                drawn += 1                      # (a wishlist round goes on to its next item)
+            if rng.random() < 0.15:             # the caller is cancelled after the send returned (too late, as the code is)
+                ops += [['tick'], ['ccancel', tk]]
+        elif r < 0.44:
+            ops.append(['sendfail', tk])
+        elif r < 0.51:
+            ops.append(['ccancel', tk])
+        elif r < 0.57:
+            ops.append(rng.choice([['wlclose'], ['wlclose'], ['stop']]))
+        elif r < 0.64:
+            ops.append([rng.choice(['remove', 'remove', 'removeobj']), tk])
+        elif r < 0.72:
+            ops.append(['reply', tk])
+        elif r < 0.86:
+            ops += rng.choice([[['tick']], [['tick']], [['tick'], ['tick']], [['sleep', 0]]])
+        elif r < 0.92:
+            ops.append(rng.choice([['jump', 1], ['jump', 2], ['sleep', 1], ['sleep', 3]]))
+        elif r < 0.95:
+            ops.append(['gate', rng.choice([0, 1])])
+        else:
+            ops.append(rng.choice([['tcancel', tk], ['tresched', tk, rng.choice([0, 1, 2])]]))
+    # the network answers whatever is still waiting; the loop runs; every timeout passes
+    for _ in range(3):
+        ops += [['sendok', g] for g in guess[:min(9, drawn + 2)] if rng.random() < 0.8] + [['sleep', 0]]
+    ops += [['gate', 0], ['wlclose'], ['sleep', rng.choice([6, 10])], ['reply', rng.choice(guess[:4])]]
+    return {'cfg': cfg, 'ops': ops, 'kind': 'setup'}
+
+
+def _fixed_setup() -> list[dict]:
+    out = []
+    b = {'store': 1, 'initial': 1}
+    # (kind, cfg, ops that leave ONE request (ticket 2) suspended in the send of its set-up, timeout, is-wishlist)
+    srcs = [(dict(b, rt=3, wt=-1, items=[]), [['gate', 1], ['search', k]], 3, False) for k in ('net', 'room', 'user')]
+    srcs += [(dict(b, rt=0, wt=-1, items=[1, 1]), [['gate', 1], ['wlmsg', 4], ['tick']], 4, True),
+             (dict(b, rt=5, wt=2, items=[1, 0, 1]), [['gate', 1], ['wlmsg', 6], ['tick']], 2, True)]
+    for cfg, pre, T, wl in srcs:
+        end = [['sendok', 3], ['sleep', 0], ['sendok', 4], ['sleep', 0], ['wlclose'], ['reply', 2], ['reply', 3],
+               ['sleep', T + 3], ['reply', 2]]
+        cancels = [[['wlmsg', 3]], [['wlclose']], [['stop']]] if wl else [[['ccancel', 2]]]
+        mids = [[['sendok', 2], ['tick']],                                       # the plain case
+                [['sendok', 2], ['tick'], ['jump', T], ['tick'], ['tick'], ['tick']],
+                [['sendfail', 2], ['tick']],                                     # the send raises
+                [['sendfail', 2], ['sleep', 0], ['reply', 2]],
+                [['remove', 2], ['sendok', 2], ['tick']],                        # the user removes the ticket meanwhile
+                [['removeobj', 2], ['sendok', 2], ['sleep', 0]],
+                [['reply', 2], ['sendok', 2], ['tick'], ['reply', 2]],           # a reply beats the send
+                [['jump', T], ['tick'], ['tick'], ['sendok', 2], ['tick']],      # time passes during the send
+                [['sleep', T + 1], ['sendok', 2], ['sleep', 0]],
+                [['gate', 0], ['sendok', 2], ['tick']]]
+        if not wl:
+            mids += [[['sendok', 2], ['tick'], ['ccancel', 2], ['tick']],        # cancelled when the call is over
+                     [['sendok', 2], ['tick'], ['ccancel', 2], ['tick'], ['jump', T], ['tick'], ['tick'], ['tick']]]
+        for c in cancels:
+            mids += [c + [['tick']],                                             # the owner is cancelled in the send
+                     c + [['sendok', 2], ['tick']],
+                     [['sendok', 2]] + c + [['tick']],                           # … after the network answered
+                     [['sendfail', 2]] + c + [['tick']],
+                     c + [['sleep', 0], ['reply', 2]]]
+        for mid in mids:
+            out.append({'cfg': dict(cfg), 'kind': 'setup', 'ops': pre + mid + end})
+    # a second item of the round; two calls whose sends return in the other order
+    out.append({'cfg': dict(b, rt=0, wt=-1, items=[1, 1, 1]), 'kind': 'setup',
+                'ops': [['gate', 1], ['wlmsg', 5], ['tick'], ['sendok', 2], ['tick'], ['wlmsg', 3], ['tick'], ['sendok', 3],
+                        ['sendok', 4], ['tick'], ['sendfail', 5], ['tick'], ['reply', 3], ['reply', 5], ['sleep', 9]]})
+    out.append({'cfg': dict(b, rt=2, wt=-1, items=[]), 'kind': 'setup',
+                'ops': [['gate', 1], ['search', 'net'], ['search', 'user'], ['search', 'room'], ['sendok', 3], ['tick'],
+                        ['ccancel', 4], ['sendok', 2], ['tick'], ['reply', 2], ['reply', 3], ['reply', 4], ['sleep', 5]]})
+    return out
+
+
 # known defects of the unchanged tree (repaired by the proposed patches) — replayed on every run
 W_REMOVE = {'cfg': {'rt': 5, 'wt': -1, 'store': 1, 'initial': 1, 'items': []}, 'kind': 'witness',
             'ops': [['search', 'net'], ['remove', 2], ['sleep', 10]]}
@@ -1338,6 +1710,44 @@ def _multi_stats(case, tr) -> dict:
     return out
 
 
+def _iter_stats(case, tr) -> dict:
+    """`iter` family: in which loop iteration after the clock was moved did what happen (0 = before the loop ran)"""
+    out: dict = {}
+    j = None
+    for op, st in zip(case['ops'], tr['steps']):
+        if op[0] == 'jump':
+            j = 0
+        elif op[0] == 'tick':
+            if any(e[1] == 'X' for e in st['events']):
+                out['removal-in-a-single-iteration'] = out.get('removal-in-a-single-iteration', 0) + 1
+            if j is not None:
+                j += 1
+        elif op[0] in ('sleep', 'resume'):
+            j = None
+        elif j is not None and op[0] not in ('gate',):
+            hit = st['ret'] in ('armed', 'removed') or (op[0] == 'reply' and any(e[1] == 'R' for e in st['events']))
+            key = f'{op[0]}@{min(j, 6)}' + ('' if hit or op[0] in ('wlmsg', 'wlclose', 'stop', 'search') else '(stale)')
+            out[key] = out.get(key, 0) + 1
+    return out
+
+
+def _setup_stats(case, tr) -> dict:
+    """`setup` family: what happened while at least one request was suspended in the send of its set-up"""
+    out: dict = {}
+    for op, st in zip(case['ops'], tr['steps']):
+        if not st.get('insetup_before'):
+            continue
+        k = op[0]
+        if k in ('sendok', 'sendfail', 'ccancel') and st['ret'] == 'nosetup':
+            continue
+        if k in ('remove', 'removeobj', 'reply', 'tcancel', 'tresched') and op[1] not in st['insetup_before']:
+            k += '(other)'
+        if k in ('sleep', 'jump') and not op[1]:
+            k += '(0)'
+        out[k] = out.get(k, 0) + 1
+    return out
+
+
 class C18(Property):
     id = 'C18'
     props_module = 'AioslskVerif.Props.C18'
@@ -1363,16 +1773,38 @@ class C18(Property):
             'and a MODELLED family `notify` (n/5, compared with Search.nstep): 1-3 extra removal listeners that wait '
             'for `resume <ticket>` (one listener returns, the loop runs), over the random / same-instant op mix plus '
             'remove_request(<object>) and stop(); '
+            'a MODELLED family `iter` (n/5 + 195 fixed, op `tick` = ONE loop iteration, compared with Search.step after '
+            'every single iteration): the clock is put on / next to the deadline of a timer (request_timeout, server '
+            'wishlist interval, own wishlist timeout; possibly re-armed before), the loop runs 0-5 single iterations, then '
+            'Timer.cancel / reschedule / remove_request by ticket or by object / a reply / a WishlistInterval message / '
+            'server closing / stop() / another search happens, then more single iterations and further events — every '
+            'action in every iteration -1..+4 around the iteration in which the sleep of the timer is over, also with two '
+            'timers or a wishlist round due in the same iteration; '
+            'a MODELLED family `setup` (n/5 + 102 fixed, ops `gate`, `sendok`, `sendfail`, `ccancel`): '
+            'send_server_messages suspends; search / room / user / wishlist requests are caught between the ticket draw '
+            'and the registration while the send is released, fails (ConnectionWriteError), the owner is cancelled (the '
+            'caller\'s task; the wishlist task through a WishlistInterval message, server closing, stop()) — before or after '
+            'the network answered —, the user removes the ticket, a reply with it arrives, time passes, other timers '
+            'expire, the gate opens; '
             'derived from VERIF_SEED. Non-trivial: at least one timeout removal happened AND a reply/removal hit a '
             'ticket that was registered earlier, or a removal / cancel / re-arm hit an armed timer; distinct = '
             'distinct canonical case; a gated case is non-trivial when a removal, a timeout or another reply '
             'happened while a handler was suspended; a multi / notify case is non-trivial when a listener really '
             'suspended while a result / removal went to >= 2 extra listeners (or a `resume` made the next listener '
-            'be told)')
+            'be told); an iter case is non-trivial when a removal happened and an action hit a live request / armed '
+            'timer at a counted iteration offset; a setup case when a failure, a cancellation, a removal or a reply '
+            'happened while a request was suspended in its set-up')
     assumptions = [
-        'the network stub and the shares/upload stubs do not suspend: apart from the listeners an API call or '
-        'message handler runs atomically between two loop iterations (a suspending send_server_messages would let '
-        'other operations run between the ticket draw and the registration — not modelled)',
+        'send_server_messages of the network stub returns at once or — while the schedule has closed the gate — '
+        'suspends until released / failed / its owner is cancelled (modelled: State.pending); send_peer_messages and '
+        'the shares/upload stubs do not suspend; a gated search*() call runs as an eagerly started task of the '
+        'application (= `await search()` inside an application coroutine, up to the first suspension)',
+        'one `tick` is one iteration of the loop as seen by a task that is queued BEHIND the wake-ups that became due '
+        '(`jump` queues the due wake-ups, as the loop does at the start of its next iteration): every timer phase '
+        '(created -> sleeping -> woken -> callback) and every cancellation takes exactly one tick; an observer queued '
+        'ahead of them would see one extra phase in which nothing differs (the wake-up is queued but not delivered)',
+        'an injected send failure ends the wishlist task (BackgroundTask.runner does not catch; it is restarted by the '
+        'next WishlistInterval message) — exercised and modelled, not judged: C18 says nothing about the round itself',
         'listener delivery: the Lean model (Search.nstep) covers SearchRequestRemovedEvent — the timer task stays '
         'alive while EventBus.emit hands the event from listener to listener, any op may happen in between, '
         'Timer.cancel is reachable through the registry only; result and sent events with several / suspending '
@@ -1404,8 +1836,12 @@ class C18(Property):
                 'utils.ticket_generator (shape checked by the translator); events.py: EventBus.emit as used for '
                 'SearchRequestRemovedEvent (listeners called in order inside the timer task, CancelledError not '
                 'caught) — Search.nstep; stop() as far as timers / the wishlist task go (Search.stopOps); '
+                'round 4: the phases of a Timer.runner task per loop iteration (Search.tick / wakeTask: created, '
+                'sleeping, woken, callback; cancel in any phase) and of the wishlist task; the set-up of a request '
+                'around `await send_server_messages` in search / search_room / search_user / _wishlist_job '
+                '(Search.beginSetup / register / completeOne / roundGo, cancelWishlist); '
                 'not modelled: incoming searches (_query_shares_and_reply), listener delivery of result / sent events '
-                '(monitor-only), suspension inside send_server_messages, asyncio itself')
+                '(monitor-only), asyncio itself (the ready queue order inside one iteration)')
 
     def regenerate(self):
         return [search_constants.generate(common.REPO, common.LEAN)]
@@ -1425,6 +1861,10 @@ class C18(Property):
         cases += _fixed_multi() + [_gen_multi(rng4) for _ in range(n // 4)]
         rng5 = random.Random(f'C18-notify-{seed}')
         cases += _fixed_notify() + [_gen_notify(rng5) for _ in range(n // 5)]
+        rng6 = random.Random(f'C18-iter-{seed}')
+        cases += _fixed_iter() + [_gen_iter(rng6) for _ in range(n // 5)]
+        rng7 = random.Random(f'C18-setup-{seed}')
+        cases += _fixed_setup() + [_gen_setup(rng7) for _ in range(n // 5)]
         return cases
 
     def correspondence(self, seed, tier, model_ok, widen=1):
@@ -1489,7 +1929,23 @@ class C18(Property):
                     res.count(f'{fam}-nontrivial')
                 res.violations += _monitor(c, tr)
                 continue
-            if c['kind'] != 'notify' and _nontrivial(c, tr):
+            if c['kind'] == 'iter':
+                g = _iter_stats(c, tr)
+                for key, v in g.items():
+                    res.count('iter:' + key, v)
+                if any('@' in key and not key.endswith('(stale)') for key in g) and any(
+                        e[1] == 'X' for st in tr['steps'] for e in st['events']):
+                    res.nontrivial_keys.add(common.sha([c['cfg'], c['ops']]))
+                    res.count('iter-nontrivial')
+            elif c['kind'] == 'setup':
+                g = _setup_stats(c, tr)
+                for key, v in g.items():
+                    res.count('setup-while-suspended:' + key, v)
+                if any(key.split('(')[0] in ('sendfail', 'ccancel', 'wlmsg', 'wlclose', 'stop', 'remove', 'removeobj', 'reply')
+                       and not key.endswith('(other)') for key in g):
+                    res.nontrivial_keys.add(common.sha([c['cfg'], c['ops']]))
+                    res.count('setup-nontrivial')
+            elif c['kind'] != 'notify' and _nontrivial(c, tr):
                 res.nontrivial_keys.add(common.sha([c['cfg'], c['ops']]))
             il = _impl_lines(tr)
             if model is not None:
